@@ -15,7 +15,7 @@ echo "--- demo with the change (expect exit 1)"
 NORMINETTE_REPO=$wt /venv/bin/python $d/demo.py >/tmp/demo-mut.$$ 2>&1; echo "exit=$?"; tail -3 /tmp/demo-mut.$$
 for c in "$@"; do
   echo "--- ./check $c --tier quick against the change"
-  (cd /verif && NORMINETTE_REPO=$wt ./check $c --tier quick 2>&1 | grep -E "VIOLATION|KNOWN-FINDING|MACHINERY|drift" | head -5; echo "exit=$?")
+  (cd /verif && NORMINETTE_REPO=$wt ./check $c --tier quick >/tmp/seedrun.$$ 2>&1; echo "exit=$?"; grep -E "VIOLATION|MACHINERY" /tmp/seedrun.$$ | head -3; grep -c "KNOWN-FINDING" /tmp/seedrun.$$ | sed 's/^/known-finding lines: /'; rm -f /tmp/seedrun.$$)
   cp /verif/evidence/$c.json /tmp/evid-mut-$c.json 2>/dev/null
 done
 rm -f /tmp/demo-clean.$$ /tmp/demo-mut.$$
